@@ -532,3 +532,6 @@ SUBCHECKS = [
              rule="all 256 one-byte scripts disassemble without error; known non-push opcodes recompile to themselves; every "
                   "script.h name (incl. OP_NOP2/OP_NOP3 aliases, excl. OP_FALSE/OP_TRUE) compiles to its byte"),
 ]
+
+# thorough tier: coverage-guided campaigns (runs per worker, 4 workers each)
+FUZZ = {"numbytes_generated": 40000, "truncated_generated": 40000, "text_roundtrip": 30000}
